@@ -28,6 +28,8 @@ structure Fns (R C : Type) where
   arctan2 : R → R → R
   rpow : R → R → R
   pi : R
+  /-- Euler's Gamma function (`scipy.special.gamma`) -/
+  gamma : R → R
   /-- numpy's `nan` (a junk value in exact arithmetic; never selected by the code's `np.where`) -/
   nan : R
   natCast : Nat → R
@@ -89,6 +91,18 @@ def fnpow (x : Float) : Nat → Float
 
 instance : HPow Float Nat Float := ⟨fnpow⟩
 
+/-- Lanczos approximation (g = 7, 9 coefficients) of the Gamma function for positive arguments;
+relative accuracy about 1e-15, which is what the correspondence tolerance allows for -/
+def lanczosGamma (x : Float) : Float :=
+  let g : Float := 7.0
+  let c : Array Float := #[0.99999999999980993, 676.5203681218851, -1259.1392167224028,
+    771.32342877765313, -176.61502916214059, 12.507343278686905, -0.13857109526572012,
+    9.9843695780195716e-6, 1.5056327351493116e-7]
+  let xm := x - 1.0
+  let a := (List.range 8).foldl (fun acc i => acc + c[i + 1]! / (xm + Float.ofNat (i + 1))) c[0]!
+  let t := xm + g + 0.5
+  Float.sqrt (2.0 * 3.141592653589793) * Float.pow t (xm + 0.5) * Float.exp (-t) * a
+
 /-- the executable instance of the function record -/
 def FloatFns : Fns Float CF where
   ofReal x := ⟨x, 0.0⟩
@@ -105,6 +119,7 @@ def FloatFns : Fns Float CF where
   arctan2 := Float.atan2
   rpow := Float.pow
   pi := 3.141592653589793
+  gamma := lanczosGamma
   nan := 0.0 / 0.0
   natCast := Float.ofNat
   truncNat x := x.toUInt64.toNat
